@@ -8,7 +8,7 @@ EXTENDS SpawnConfig, Json
 Trace == ndJsonDeserialize("trace.ndjson")
 VARIABLE l
 
-Rep(tag, cond) == cond \/ PrintT(<<"DRIFT", l, tag>>)
+Rep(tag, cond) == IF cond THEN TRUE ELSE PrintT(<<"DRIFT", l, tag>>)
 Pairs(f) == {<<t, f[t]>> : t \in DOMAIN f}
 
 ObsMatches(p, o) ==
